@@ -41,7 +41,7 @@ def enc_groups(strs):
 _BUFFERS = {}
 
 
-def acc_array(rows, reuse=False):
+def acc_array(rows, reuse=False, readonly_ok=True):
     """the accessor as an ndarray.  reuse=True hands out ONE long-lived array object per shape whose content is
     overwritten in place for every case: results must depend on the content of the arguments only, never on the identity
     or the history of the array object (stale memo / cache keyed by id())."""
@@ -58,6 +58,9 @@ def acc_array(rows, reuse=False):
                 wide = np.zeros((a.shape[0], 8), dtype=int)
                 wide[:, ::2] = a
                 return wide[:, ::2]
+            if h == 2 and readonly_ok:
+                a.setflags(write=False)        # read-only (numpy.frombuffer, a memory-mapped file): nothing but arc removal writes
+                return a
         return a
     buf = _BUFFERS.get(a.shape)
     if buf is None:
